@@ -1,8 +1,8 @@
 /-
 C06  Oblivious transfer delivers exactly the chosen label.
 
-Property theorems only; helper lemmas are in Proofs/{Iknp,Cot,CoRsa}.lean,
-the models in Model/{Iknp,Cot,Co,RsaOt}.lean (theorems) and
+Property theorems only; helper lemmas are in Proofs/{Iknp,IknpBuf,Cot,CoRsa,RsaOtBytes}.lean,
+the models in Model/{Iknp,Cot,Co,RsaOt,RsaOtBytes}.lean (theorems) and
 Model/{CoBytes,P256,Sha256}.lean (executed only: the byte-level instance of
 the Chou-Orlandi model on P-256 that the driver compares with the real
 `ot.CO`; no theorem depends on P-256 or SHA-256).
@@ -40,7 +40,12 @@ delivered, i.e. the sender's stream `i` is the receiver's stream selected by
 COT/ROT: every block cipher `π`, every seed, every batch size.  CO: every
 commutative group with a scalar action and every KDF (the executed instance is
 P-256 with SHA-256, compared byte for byte with Go).  RSA: every modulus and
-exponent pair satisfying the RSA key relation.
+exponent pair satisfying the RSA key relation, every randomness of both
+parties (`x0`, `x1` any natural numbers - `messageSize` random bytes may exceed
+`N` -, `k` any value `< N`), every block size and every pair of messages that
+fit; the transfer messages are sums over the integers exactly as the code
+forms them (Model/RsaOtBytes.lean, executed by the driver on the op lines of
+the real code with both random sources on harness tapes).
 -/
 import MpcVerif.Proofs.Iknp
 import MpcVerif.Proofs.IknpBuf
